@@ -36,8 +36,8 @@ def plan(tier, seed):
     quick = tier == "quick"
     return {
         "nshards": 16,
-        "params": {"soft_s": 600 if quick else 1800, "nprograms": 60 if quick else 700, "script_len": 8 if quick else 20, "ninputs": 5 if quick else 12},
-        "hard_timeout_s": 1200 if quick else 4000,
+        "params": {"soft_s": 1500 if quick else 5400, "nprograms": 60 if quick else 700, "script_len": 8 if quick else 20, "ninputs": 5 if quick else 12},
+        "hard_timeout_s": 2700 if quick else 9000,
     }
 
 
